@@ -51,8 +51,9 @@ func FromJSONSchema(schema *lib.Schema, opts ...FromJSONSchemaOptions) (core.Zod
 	}
 
 	ctx := &fromJSONSchemaContext{
-		seen:    make(map[*lib.Schema]core.ZodSchema),
-		options: options,
+		seen:       make(map[*lib.Schema]core.ZodSchema),
+		converting: make(map[*lib.Schema]bool),
+		options:    options,
 	}
 
 	return ctx.convert(schema)
@@ -60,8 +61,9 @@ func FromJSONSchema(schema *lib.Schema, opts ...FromJSONSchemaOptions) (core.Zod
 
 // fromJSONSchemaContext holds conversion state.
 type fromJSONSchemaContext struct {
-	seen    map[*lib.Schema]core.ZodSchema
-	options FromJSONSchemaOptions
+	seen       map[*lib.Schema]core.ZodSchema
+	converting map[*lib.Schema]bool // schemas whose conversion is under way
+	options    FromJSONSchemaOptions
 }
 
 // convert dispatches to the appropriate converter based on schema type.
@@ -82,6 +84,15 @@ func (ctx *fromJSONSchemaContext) convert(s *lib.Schema) (core.ZodSchema, error)
 		}
 		return types.Never(), nil // false schema rejects everything
 	}
+
+	// A schema reached again while its own conversion is under way is a $ref cycle
+	// that does not pass through an object's properties (those are answered from
+	// ctx.seen above). Unfolding it would never end.
+	if ctx.converting[s] {
+		return nil, ErrJSONSchemaCircularRef
+	}
+	ctx.converting[s] = true
+	defer delete(ctx.converting, s)
 
 	// Handle $ref (already pre-resolved by kaptinlin/jsonschema)
 	if s.ResolvedRef != nil {
